@@ -86,6 +86,20 @@ func c16CacheOpts(spec string, memo map[int]CacheOption) []CacheOption {
 	return opts
 }
 
+// c16StableGoroutines: the goroutine count once it has not moved for 40 polls (>= 8 ms), at most 2 s
+func c16StableGoroutines() int {
+	n, same := runtime.NumGoroutine(), 0
+	for deadline := time.Now().Add(2 * time.Second); same < 40 && time.Now().Before(deadline); {
+		time.Sleep(200 * time.Microsecond)
+		if m := runtime.NumGoroutine(); m == n {
+			same++
+		} else {
+			n, same = m, 0
+		}
+	}
+	return n
+}
+
 func c16Key(k int) string { return "k" + strconv.Itoa(k) }
 func c16KeyBack(s string) int {
 	return verifh.Atoi(strings.TrimPrefix(s, "k"))
@@ -216,6 +230,14 @@ func c16StartCache(cfg verifh.Cfg) (func(op []string) string, func()) {
 	// `opts=` the option list; older traces carry `limit=` alone (= one WithLimit).  In a multi-instance section the
 	// caches are built from one CacheOption value per limit (c16OptMemo).
 	optS := cfg.Str("opts", "L"+strconv.Itoa(cfg.Int("limit", 0)))
+	// quiescent goroutine count before this cache exists: the count tracked since the previous cache was torn
+	// down (c16GoBase) once the stragglers are gone, else a count that has stopped moving
+	n0 := 0
+	if c16GoBase > 0 && verifh.SettleGoroutines(c16GoBase, time.Second) {
+		n0 = runtime.NumGoroutine()
+	} else {
+		n0 = c16StableGoroutines()
+	}
 	c, err := NewCache(expire, c16CacheOpts(optS, c16OptMemo)...)
 	if err != nil {
 		panic(err)
@@ -260,10 +282,15 @@ func c16StartCache(cfg verifh.Cfg) (func(op []string) string, func()) {
 		}
 	}
 	sync()
-	time.Sleep(time.Millisecond)
-	// quiescent goroutine count; shared, because a later instance of a multi-instance section adds its own
-	// (wheel loop, statistics loop) while the earlier ones are idle
-	c16GoBase = runtime.NumGoroutine()
+	// quiescent goroutine count from now on: NewCache added the statistics loop and its wheel's loop, the harness
+	// wheel added its loop, orig.Stop() ends the first wheel's loop (asynchronously: wait for it - a base taken
+	// while it is still alive would let `settle` return before an expiry callback has run).  Shared, because a later
+	// instance of a multi-instance section adds its own goroutines while the earlier ones are idle.
+	if verifh.SettleGoroutines(n0+2, 5*time.Second) {
+		c16GoBase = n0 + 2
+	} else {
+		c16GoBase = c16StableGoroutines()
+	}
 	settle := func() string {
 		sync()
 		if !verifh.SettleGoroutines(c16GoBase, 5*time.Second) {
@@ -425,6 +452,6 @@ func c16StartCache(cfg verifh.Cfg) (func(op []string) string, func()) {
 		}, func() {
 			tw.Stop()
 			c16GoBase--
-			verifh.SettleGoroutines(c16GoBase, time.Second)
+			verifh.SettleGoroutines(c16GoBase, 5*time.Second)
 		}
 }
